@@ -54,6 +54,9 @@ type c12Case struct {
 	Assigned bool        `json:"assigned"`
 	CType    string      `json:"ctype"`
 	Raw      []byte      `json:"raw,omitempty"` // fuzz: appended verbatim
+	// Prefix: bytes in front of the first line (a byte order mark or part of one, NUL, the gzip magic inside the
+	// decompressed body, white space ...): the first line is then one the statistics parser rejects
+	Prefix []byte `json:"prefix,omitempty"`
 	// Timeout: the job's scrape_timeout ("" = 10s).  The target answers at once, so any positive timeout is enough;
 	// the transport refuses a request whose deadline has already passed, like a real one
 	Timeout string `json:"timeout,omitempty"`
@@ -69,6 +72,7 @@ type c12Case struct {
 
 func (c *c12Case) payload() []byte {
 	var b bytes.Buffer
+	b.Write(c.Prefix)
 	ln := 0
 	for _, g := range c.Groups {
 		for i := 0; i < g.Count; i++ {
@@ -344,6 +348,9 @@ func runC12(rec *vkit.Recorder, c *c12Case) []vkit.Violation {
 	if len(pl) == 0 {
 		cls = append(cls, "empty-payload")
 	}
+	if len(c.Prefix) > 0 {
+		cls = append(cls, fmt.Sprintf("bytes-before-first-line/%q", c.Prefix))
+	}
 	if c.Gzip && c.Members > 1 {
 		cls = append(cls, "gzip-multi-member")
 	}
@@ -390,6 +397,9 @@ func genC12(t *rapid.T) *c12Case {
 			}
 		}
 		c.Groups = append(c.Groups, g)
+	}
+	if rapid.IntRange(0, 4).Draw(t, "prefixed") == 0 {
+		c.Prefix = []byte(rapid.SampledFrom([]string{"\xef\xbb\xbf", "\xef\xbb", "\xef\xbb\xbf\xef\xbb\xbf", "\xff\xfe", "\x00", "\x1f\x8b\x08", " ", "\t", "\r\n", "\n\n", "# EOF\n", "\xc3"}).Draw(t, "prefix"))
 	}
 	nc := rapid.IntRange(0, 4).Draw(t, "nCuts")
 	for i := 0; i < nc; i++ {
